@@ -45,10 +45,10 @@ def write_inst(fmt, ns, aln, nls, tier_ob="O1", **kw):
 def instances(tier):
     out = []
     if tier == "quick":
-        widths = {1: [(2, 1), (3, 4), (2, 59), (2, 60), (2, 61)], 2: [(2, 1), (2, 3), (3, 4), (2, 60)], 3: [(2, 2), (3, 4), (2, 60), (2, 61)]}
+        widths = {1: [(2, 1), (3, 4), (2, 59), (2, 60), (2, 61)], 2: [(2, 1), (2, 3), (3, 4), (2, 60), (2, 61)], 3: [(2, 2), (3, 4), (2, 60), (2, 61)]}
     else:
         widths = {1: [(ns, a) for ns in (2, 3) for a in (1, 2, 3, 4, 5, 59, 60, 61, 120, 121)],
-                  2: [(ns, a) for ns in (2, 3) for a in (1, 2, 3, 4, 5, 6)] + [(2, 59), (2, 60), (2, 61)],
+                  2: [(ns, a) for ns in (2, 3) for a in (1, 2, 3, 4, 5, 6)] + [(2, 59), (2, 60), (2, 61), (3, 61), (2, 121)],
                   3: [(ns, a) for ns in (2, 3) for a in (1, 2, 3, 4, 5, 59, 60, 61, 120, 121)]}
     for fmt in (1, 2, 3):
         for ns, aln in widths[fmt]:
